@@ -108,7 +108,11 @@ func Small() []Doc {
 // Testdata returns every file under /repo/testdata (formats by extension).
 func Testdata() []Doc {
 	var ds []Doc
-	files, _ := filepath.Glob("/repo/testdata/*")
+	repo := os.Getenv("VERIF_REPO")
+	if repo == "" {
+		repo = "/repo"
+	}
+	files, _ := filepath.Glob(repo + "/testdata/*")
 	sort.Strings(files)
 	for _, f := range files {
 		b, err := os.ReadFile(f)
